@@ -153,6 +153,20 @@ func init() {
 			pos(c, &c15Pos{Priv: r.Bytes(32)})
 		}
 
+		c.Phase("hashes-with-template-bytes") // key hashes that contain, at every offset, the byte values of the opcodes and the push length of the P2PKH template itself
+		n := uint64(0)
+		for _, pat := range [][]byte{{0x88, 0xac}, {0x76, 0xa9}, {0xa9, 0x14}, {0x14}, {0x88}, {0xac}, {0x6a}, {0x00, 0x63}, {0x4c}, {0x4e}} {
+			for off := 0; off+len(pat) <= 20; off++ {
+				n++
+				if !c.Case(n) {
+					continue
+				}
+				h := c.Rand(n).Bytes(20)
+				copy(h[off:], pat)
+				pos(c, &c15Pos{Hash: h})
+			}
+		}
+
 		c.Phase("mutations")
 		nm := 200
 		if c.Thorough {
